@@ -356,8 +356,8 @@ H("endpoint_reset_token_event_native", ["C08", "C09"], "replay-only", "endpoint:
 H("conn_on_packet_authenticated_native", ["C04"], "replay-only", "connection::on_packet_authenticated_native",
   [("has_pn", "bool")], 4, [], ["Connection::on_packet_authenticated"], "native replay body of E2 query e2_on_packet_authenticated")
 
-H("conn_migrate_native", ["C15"], "replay-only", "connection::migrate_native",
-  [("old_challenged", "bool"), ("old_pending", "bool"), ("v4", "bool")], 4, [], ["Connection::migrate"], "native replay body of E2 query e2_migrate")
+H("conn_migrate_native", ["C15", "C13"], "replay-only", "connection::migrate_native",
+  [("old_challenged", "bool"), ("old_pending", "bool"), ("v4", "bool"), ("big_peer", "bool")], 4, [], ["Connection::migrate"], "native replay body of E2 query e2_migrate")
 H("conn_close_inner_native", ["C08"], "replay-only", "connection::close_inner_native",
   [("state", "u8")], 4, [], ["Connection::close_inner"], "native replay body of E2 query e2_close_inner")
 H("conn_kill_native", ["C08"], "replay-only", "connection::kill_native",
